@@ -7,7 +7,8 @@ from ..common import rat, unrat
 
 PROP = "C03"
 RULE = ("[== matrices: every ordered pair of zero / negligible / non-zero terms, numbers and sums; histories re-using the "
-        "same operand objects] op-sequence programs over terms / sums / numbers (+ - * / ** simplify ==, numbers on either side) and the "
+        "same operand objects; wide-range coefficients (2^-30 .. 2^33 in one operator); sibling operands differing in one "
+        "component; caller-mutates-then-asks-again; exponents up to 64; explicit identities, indices up to 2^40] op-sequence programs over terms / sums / numbers (+ - * / ** simplify ==, numbers on either side) and the "
         "exhaustive table of products of all Pauli strings on <=3 qubits in both orders; non-trivial: a binary step "
         "whose two operands are initial operators that are both non-constant with overlapping qubit supports, or an "
         "initial sum containing a duplicate operator string or a zero coefficient; distinct = distinct canonical JSON")
@@ -92,6 +93,27 @@ def expand(case):
     return {"kind": "pairs", "vals": vals, "steps": steps, "exact": True}
 
 
+def _corpus_wide_1():
+    ZZ, X2, Y1, W, V, BIG, ONE = range(7)
+    g = _Prog([T([[0, "Z"], [1, "Z"]], 2 ** 30), T([[2, "X"]], 1), T([[1, "Y"]], Fraction(1, 256)),
+               S(T([[0, "Z"], [1, "Z"]], 2 ** 30), T([[2, "X"]], 1), T([[1, "Y"]], Fraction(1, 256))),
+               S(T([[0, "X"]], 1), T([[1, "Z"]], Fraction(1, 2))), N(2 ** 29), N(1)])
+    sw = g("simplify", W); ab = g("add", ZZ, X2); ba = g("add", X2, ZZ); d = g("sub", ab, ZZ)
+    g("eq", d, X2); g("eq", ab, ZZ); g("eq", ZZ, ab); g("eq", ab, ba)
+    m1 = g("mul", BIG, V); m2 = g("mul", V, BIG); p1 = g("add", m1, ONE); p2 = g("add", ONE, m2); g("eq", p1, m1); g("eq", p1, p2)
+    g("sub", W, ZZ); g("mul", W, X2); g("mul", X2, W); g("div", W, BIG); g("add", W, Y1); g("sub", ONE, W); g("eq", sw, W)
+    g("sub", BIG, W); g("add", W, BIG)
+    return g.case("wide")
+
+
+def _corpus_wide_2():
+    Z, X, Y, NUM = range(4)
+    g = _Prog([T([[0, "Z"]], 32), T([[0, "X"]], Fraction(1, 2 ** 25)), T([[1, "Y"]], Fraction(1, 2 ** 30)), N(Fraction(1, 2 ** 25))])
+    zx = g("add", Z, X); g("add", zx, Y); g("eq", zx, Z); g("eq", Z, zx); d = g("sub", zx, Z); g("eq", d, X)
+    n1 = g("add", Z, NUM); n2 = g("add", NUM, Z); g("eq", n1, Z); g("eq", n1, n2); g("mul", zx, Y); g("mul", X, zx)
+    return g.case("wide")
+
+
 def corpus():
     X0, Y0, Z1 = T([[0, "X"]]), T([[0, "Y"]]), T([[1, "Z"]])
     return [
@@ -137,6 +159,37 @@ def corpus():
         # indices up to 12, gap, descending dict order
         P([T([[12, "Y"], [3, "X"], [7, "Z"]], Fraction(3, 8), Fraction(-5, 8)), T([[7, "X"], [12, "Y"], [0, "Z"]], 0, 1)],
           [st("mul", 0, 1), st("mul", 1, 0), st("add", 2, 3), st("sub", 2, 3), st("pow", 0, p=5), st("pow", 1, p=4)]),
+        # a significant coefficient next to a huge one (penalty term 2^30 Z0 Z1 + X2 + Y1/256): the 1e-8 cut-off is absolute
+        # and per operator string, in simplify() and in everything that ends in it; (A + B) - A == B; 2^29 (X0 + Z1/2) + 1
+        _corpus_wide_1(),
+        # the same three orders of magnitude lower: 2^5 Z0 next to 2^-25 X0 (3e-8: above the tolerance), 2^-30 Y1 below it
+        _corpus_wide_2(),
+        # sibling operands: coefficient moved by 2^-22 (same 1e-6 hash bucket), other dict order, equal copy, int / complex
+        P([T([[0, "X"], [1, "Y"]], Fraction(3, 8)), T([[0, "X"], [1, "Y"]], Fraction(3, 8) + Fraction(1, 2 ** 22)),
+           T([[1, "Y"], [0, "X"]], Fraction(3, 8)), T([[0, "X"], [1, "Y"]], Fraction(3, 8)), T([[0, "Z"]], 2, 0, "int"),
+           T([[0, "Z"]], 2, 0, "complex"), N(2), N(2 + Fraction(1, 2 ** 22))],
+          [st("mul", 0, 4), st("mul", 1, 4), st("mul", 0, 4), st("mul", 2, 4), st("mul", 3, 5), st("mul", 4, 1), st("add", 0, 4),
+           st("add", 1, 4), st("add", 0, 4), st("sub", 4, 1), st("mul", 0, 6), st("mul", 0, 7), st("mul", 7, 0), st("mul", 6, 0),
+           st("pow", 0, p=2), st("pow", 1, p=2), st("pow", 0, p=2), st("eq", 8, 10), st("eq", 8, 11), st("eq", 14, 16)], kind="sibling"),
+        # the caller changes what it got, then asks again: a ** 0, s ** 0, s * number, a + b, simplify()
+        P([T([[0, "X"]], 2), S(T([[0, "X"]], 1), T([[1, "Z"]], 1), T([[0, "X"]], 1)), N(2)],
+          [st("pow", 0, p=0), {"op": "poke", "a": 3, "j": 0, "c": _c(5)}, st("pow", 0, p=0), st("pow", 1, p=0),
+           {"op": "poke", "a": 6, "j": 0, "c": _c(0, 3)}, st("pow", 1, p=0), st("mul", 1, 2), st("mul", 2, 1), st("pow", 1, p=2),
+           st("simplify", 1), {"op": "poke", "a": 12, "j": 1, "c": _c(7)}, st("simplify", 1), st("add", 0, 0),
+           {"op": "poke", "a": 15, "j": 0, "c": _c(7)}, st("add", 0, 0), {"op": "poke", "a": 0, "j": 0, "c": _c(3)}, st("add", 0, 0),
+           st("eq", 0, 0), st("mul", 0, 0), st("eq", 17, 19)], kind="poison"),
+        # exponents with several set bits, beyond the first few (regression inputs of seeded change r2m1)
+        P([T([[0, "X"], [1, "Y"]], 2), T([], 2), S(T([[0, "X"]], 1), T([[0, "Z"]], 1)), T([[0, "Y"]], 0, 1)],
+          [st("pow", 0, p=6), st("pow", 1, p=3), st("pow", 1, p=7), st("pow", 2, p=31), st("pow", 2, p=32), st("mul", 7, 2),
+           st("eq", 8, 9), st("pow", 3, p=63), st("pow", 3, p=64), st("pow", 0, p=12), st("pow", 3, p=10), st("pow", 3, p=34)], kind="bigpow"),
+        # written-out identities and very large qubit indices
+        P([T([[0, "X"], [1, "I"], [2 ** 40, "Z"]], 1), T([[2 ** 40, "Y"], [64, "I"]], 0, 1), T([[2 ** 40 + 1, "Y"]], 1),
+           T([[3, "I"]], 2), N(2)],
+          [st("mul", 0, 1), st("mul", 1, 0), st("add", 5, 6), st("add", 1, 2), st("pow", 8, p=2), st("eq", 3, 4), st("eq", 4, 3),
+           st("add", 0, 3), st("mul", 3, 0), st("sub", 1, 1)]),
+        # FINDING eq-near-zero-terms-on-different-strings: 2^-27 X0 (within 1e-8 of zero) == 2^-26 Z1 (1.5e-8: not) is True,
+        # the mirrored comparison is False
+        P([T([[0, "X"]], Fraction(1, 2 ** 27)), T([[1, "Z"]], Fraction(1, 2 ** 26))], [st("eq", 0, 1), st("eq", 1, 0)], exact=False),
     ]
 
 
@@ -154,17 +207,40 @@ def _coeff(rng, allow_zero=True):
     return Fraction(k, 8), Fraction(l or -3, 8)
 
 
+HUGE_INDEX = [63, 64, 65, 1000, 2 ** 31, 2 ** 40, 2 ** 40 + 1]
+
+
 def _term(rng, pool, allow_zero=True, const_p=0.1):
     if rng.random() < const_p:
         ops = []
     else:
         qs = rng.sample(pool, rng.randrange(1, len(pool) + 1))
         ops = [[q, rng.choice(LETTERS)] for q in qs]  # dict order = sample order (not sorted)
+    if rng.random() < 0.12:
+        # exotic but legal: the identity written out on a qubit of its own (the constructor drops it)
+        free = [q for q in list(pool) + [pool[-1] + 1] if q not in {o[0] for o in ops}]
+        for q in rng.sample(free, min(len(free), rng.randrange(1, 3))):
+            ops.insert(rng.randrange(len(ops) + 1), [q, "I"])
     re, im = _coeff(rng, allow_zero)
     ty = None
     if im == 0 and re.denominator == 1 and rng.random() < 0.5:
         ty = "int"
+    elif im == 0 and rng.random() < 0.15:
+        ty = "complex"  # a real value carried by a Python complex
     return T(ops, re, im, ty)
+
+
+def _pool(rng, kmax):
+    """qubit indices: mostly small (<= 12); sometimes dense; sometimes one or two very large indices"""
+    pool = sorted(rng.sample(range(13), rng.randrange(1, kmax + 1)))
+    r = rng.random()
+    if r < 0.3:
+        pool = list(range(len(pool)))
+    elif r < 0.42:
+        for h in rng.sample(HUGE_INDEX, rng.randrange(1, 3)):
+            pool[rng.randrange(len(pool))] = h
+        pool = sorted(set(pool))
+    return pool
 
 
 def _sum(rng, pool):
@@ -194,9 +270,7 @@ DIVISORS_INEXACT = [(3, 0), (Fraction(5, 8), 0), (1, 2), (Fraction(3, 8), Fracti
 
 def _program(rng, tier):
     big = tier == "thorough"
-    pool = sorted(rng.sample(range(13), rng.randrange(1, (5 if big else 4) + 1)))
-    if rng.random() < 0.3:
-        pool = list(range(len(pool)))  # dense low indices
+    pool = _pool(rng, 5 if big else 4)
     vals, kinds, bits, divisor = [], [], [], {}
     for _ in range(rng.randrange(2, 5)):
         r = rng.random()
@@ -301,7 +375,7 @@ def _program(rng, tier):
 
 def _eq_case(rng, tier):
     """equalities that should hold (commuted sums / products, re-simplification) and near misses"""
-    pool = sorted(rng.sample(range(13), rng.randrange(1, 4)))
+    pool = _pool(rng, 3)
     a, b, c = _term(rng, pool, allow_zero=False), _term(rng, pool, allow_zero=False), _sum(rng, pool)
     r = rng.random()
     if r < 0.25:
@@ -407,7 +481,7 @@ def _history_case(rng, tier):
     """multi-step histories on the SAME objects: an operation is evaluated, then the very same operands are used again
     (operands changed in place, results cached on an operand, temporaries) – every repeat must denote the same matrix;
     results that must merge like terms are compared (==) with the merged operator written down directly"""
-    pool = sorted(rng.sample(range(13), rng.randrange(1, 4)))
+    pool = _pool(rng, 3)
     ops = [[q, rng.choice(LETTERS)] for q in rng.sample(pool, rng.randrange(1, len(pool) + 1))]
     re, im = _coeff(rng, allow_zero=False)
     re2, im2 = _coeff(rng, allow_zero=False)
@@ -445,6 +519,560 @@ def _history_case(rng, tier):
         d = g("add", A, A); z = g("sub", A, A); g("mul", RAW, RAW); t = g("add", RAW, A); g("add", d, A); g("mul", t, RAW)
         zz = g("sub", t, t); g("eq", t, t); g("add", RAW, RAW); g("eq", z, zz); g("eq", zz, z)
     return g.case("history")
+
+
+# ------------------------------------------------------------------ coefficients of very different magnitude in one operator
+SPAN_MAX = 52    # bits between the lsb of any coefficient and the bound of any sum of like terms: all double arithmetic exact
+HASH_SPAN = 38   # operands of ==: coefficient * 1e6 (14 more bits) must be exact in a double as well
+
+
+def _scaled(rng, s, cplx=True):
+    """m * 2^s with 1 <= |m| <= 2 a multiple of 1/8 (so the magnitude class is decided by s alone)"""
+    k = rng.randrange(8, 17) * rng.choice([1, -1])
+    l = rng.randrange(8, 17) * rng.choice([1, -1])
+    r = rng.random()
+    f = Fraction(2) ** s
+    if not cplx or r < 0.6:
+        return Fraction(k, 8) * f, Fraction(0)
+    if r < 0.8:
+        return Fraction(0), Fraction(k, 8) * f
+    return Fraction(k, 8) * f, Fraction(l, 8) * f
+
+
+def _strings(rng, pool, n):
+    """n distinct non-empty Pauli strings on the pool"""
+    out, seen = [], set()
+    for _ in range(200):
+        if len(out) == n:
+            break
+        ops = [[q, rng.choice(LETTERS)] for q in rng.sample(pool, rng.randrange(1, len(pool) + 1))]
+        key = tuple(sorted(map(tuple, ops)))
+        if key not in seen:
+            seen.add(key); out.append(ops)
+    while len(out) < n:  # a one-qubit pool has three strings only
+        out.append(list(rng.choice(out)))
+    return out
+
+
+class _Tracked:
+    """program builder that tracks, per register, the kind and bounds on the binary exponents of its coefficients:
+    every coefficient is a multiple of 2^L and every sum of like terms stays below 2^H; a step is only emitted when
+    H - L <= SPAN_MAX afterwards, so Python's double arithmetic is exact and the exact model must agree to the last bit"""
+
+    def __init__(self):
+        self.vals, self.steps, self.info = [], [], []
+
+    def val(self, v, L, H, n=1, lin=False):
+        assert not self.steps
+        self.vals.append(v)
+        self.info.append({"k": v["k"], "L": L, "H": H, "n": n, "lin": lin})
+        return len(self.vals) - 1
+
+    def _push(self, step, info):
+        self.steps.append(step)
+        self.info.append(info)
+        return len(self.info) - 1
+
+    def span(self, i):
+        return self.info[i]["H"] - self.info[i]["L"]
+
+    def ops(self):
+        return [i for i, f in enumerate(self.info) if f is not None and f["k"] != "num"]
+
+    def live(self):
+        return [i for i, f in enumerate(self.info) if f is not None]
+
+    def add(self, op, a, b):
+        if a is None or b is None or self.info[a] is None or self.info[b] is None:
+            return None
+        A, B = self.info[a], self.info[b]
+        if A["k"] == "num" and B["k"] == "num":
+            return None
+        f = {"k": "sum", "L": min(A["L"], B["L"]), "H": max(A["H"], B["H"]) + 1, "n": A["n"] + B["n"], "lin": A["lin"] or B["lin"]}
+        if f["H"] - f["L"] > SPAN_MAX or f["n"] > 24:
+            return None
+        return self._push(st(op, a, b), f)
+
+    def _mulinfo(self, A, B):
+        if A["k"] == "num" and B["k"] == "num":
+            return None
+        if (A["lin"] or B["lin"]) and "num" not in (A["k"], B["k"]):
+            return None
+        n = A["n"] * B["n"]
+        f = {"k": "sum" if "sum" in (A["k"], B["k"]) else "term", "L": A["L"] + B["L"],
+             "H": A["H"] + B["H"] + 1 + max(n, 1).bit_length(), "n": n, "lin": A["lin"] or B["lin"]}
+        if f["H"] - f["L"] > SPAN_MAX or n > 16:
+            return None
+        return f
+
+    def mul(self, a, b):
+        if a is None or b is None or self.info[a] is None or self.info[b] is None:
+            return None
+        f = self._mulinfo(self.info[a], self.info[b])
+        return None if f is None else self._push(st("mul", a, b), f)
+
+    def div(self, a, d):
+        """d: a register holding +-2^j or +-2^j i (its reciprocal is exact)"""
+        A, D = self.info[a], self.info[d]
+        if A["k"] == "num" or D["k"] != "num" or "j" not in D:
+            return None
+        f = dict(A, L=A["L"] - D["j"], H=A["H"] - D["j"])
+        return self._push(st("div", a, d), f)
+
+    def pow(self, a, p):
+        A = self.info[a]
+        if A["k"] == "num" or (A["lin"] and p >= 1):
+            return None
+        if p == 0:
+            f = {"k": A["k"], "L": 0, "H": 1, "n": 1, "lin": False}
+        else:
+            f = dict(A)
+            for _ in range(p - 1):
+                f = self._mulinfo(f, A)
+                if f is None:
+                    return None
+        return self._push(st("pow", a, p=p), f)
+
+    def simplify(self, a):
+        A = self.info[a]
+        if A["k"] != "sum":
+            return None
+        return self._push(st("simplify", a), dict(A))
+
+    def eq(self, a, b):
+        if a is None or b is None or self.info[a] is None or self.info[b] is None:
+            return None
+        A, B = self.info[a], self.info[b]
+        if (A["k"] == "num" and B["k"] == "num") or self.span(a) > HASH_SPAN or self.span(b) > HASH_SPAN:
+            return None
+        self.steps.append(st("eq", a, b))
+        self.info.append(None)
+        return len(self.info) - 1
+
+    def case(self, kind):
+        return P(self.vals, self.steps, kind=kind)
+
+
+def _wide_case(rng, tier):
+    """coefficients of very different magnitude inside one operator / one expression (a 2^27..2^33 ratio between the
+    largest and an ordinary coefficient, at four absolute levels; plus coefficients below the 1e-8 tolerance), through
+    every operation and every mix of term / sum / number: the 1e-8 cut-off is ABSOLUTE and per operator string"""
+    pool = _pool(rng, 3)
+    qstar = rng.choice([q for q in range(14) if q not in pool])
+    semi = rng.random() < 0.3            # two moderately wide sums whose PRODUCT is wide
+    delta = rng.randrange(15, 18) if semi else rng.randrange(27, 34)
+    lo = rng.choice([0, -10, -12] if semi else [0, 0, -10, -20, -25])
+    hi = lo + delta
+    strs = _strings(rng, pool, 4)
+    g = _Tracked()
+
+    def term(si, s, ops=None):
+        ops = list(strs[si]) if ops is None else ops
+        rng.shuffle(ops)
+        return T(ops, *_scaled(rng, s))
+
+    def wide_sum(with_negl):
+        ts = [term(0, hi), term(1, lo)]
+        if rng.random() < 0.5:
+            ts.append(term(2, rng.choice([lo, hi, (lo + hi) // 2])))
+        if rng.random() < 0.4:
+            ts.append(term(rng.choice([0, 1]), lo))          # a like term at the ordinary level
+        if rng.random() < 0.25:
+            ts.append(T([], *_scaled(rng, rng.choice([lo, hi]))))
+        if with_negl:
+            ts.append(T([[qstar, rng.choice(LETTERS)]], *_scaled(rng, -30)))
+        rng.shuffle(ts)
+        return S(*ts), len(ts)
+
+    Hh = g.val(term(0, hi), hi - 3, hi + 1)
+    Oo = g.val(term(1, lo), lo - 3, lo + 1)
+    extra = []
+    menu = ["like", "W", "W", "W2", "NH", "NO", "CH", "CO", "NEG", "WNEG", "O2", "near"]
+    near = None
+    for what in rng.sample(menu, rng.randrange(2, 5)):
+        if what == "like":
+            extra.append(g.val(term(0, lo), lo - 3, lo + 1))
+        elif what == "near":
+            # the huge term with its coefficient moved by 2^-14 of its size: a different operator for every tolerance
+            h = g.vals[Hh]
+            near = g.val(T(list(h["ops"]), unrat(h["c"][0]) + Fraction(2) ** (hi - 14), unrat(h["c"][1])), hi - 14, hi + 2)
+        elif what == "O2":
+            extra.append(g.val(term(2, lo), lo - 3, lo + 1))
+        elif what in ("W", "W2"):
+            v, n = wide_sum(False)
+            extra.append(g.val(v, lo - 3, hi + 3, n))
+        elif what == "WNEG":
+            v, n = wide_sum(True)
+            extra.append(g.val(v, lo - 3, hi + 3, n, lin=True))
+        elif what == "NEG":
+            extra.append(g.val(T([[qstar, rng.choice(LETTERS)]], *_scaled(rng, -30)), lo - 3, lo + 1, lin=True))
+        elif what in ("NH", "NO"):
+            s_ = hi if what == "NH" else lo
+            extra.append(g.val(N(*_scaled(rng, s_)), s_ - 3, s_ + 1))
+        else:
+            s_ = hi if what == "CH" else lo
+            extra.append(g.val(T([], *_scaled(rng, s_)), s_ - 3, s_ + 1))
+    divs = []
+    for _ in range(rng.randrange(0, 3)):
+        j = rng.choice([-3, -1, 1, 2, 5, hi, lo - 1])
+        sgn = rng.choice([1, -1])
+        v = N(sgn * Fraction(2) ** j) if rng.random() < 0.6 else N(0, sgn * Fraction(2) ** j)
+        d = g.val(v, j, j)
+        g.info[d]["j"] = j
+        divs.append(d)
+    small = g.val(N(*rng.choice([(2, 0), (-1, 0), (Fraction(1, 2), 0), (0, 1), (0, Fraction(-1, 4)), (1, 1)])), -2, 2)
+
+    nsteps = rng.randrange(4, 10 if tier == "thorough" else 8)
+    for _ in range(4 * nsteps):
+        if len(g.steps) >= nsteps:
+            break
+        live, opr = g.live(), g.ops()
+        a = rng.choice(opr if rng.random() < 0.8 else live)
+        r = rng.random()
+        if r < 0.22:
+            g.add("add", *rng.sample(live, 2)) if rng.random() < 0.85 else g.add("add", a, a)
+        elif r < 0.42:
+            g.add("sub", *rng.sample(live, 2)) if rng.random() < 0.85 else g.add("sub", a, a)
+        elif r < 0.62:
+            b = rng.choice(live)
+            g.mul(a, b) if rng.random() < 0.5 else g.mul(b, a)
+        elif r < 0.70:
+            if divs:
+                g.div(a, rng.choice(divs))
+        elif r < 0.78:
+            g.pow(a, rng.choice([0, 1, 2, 2, 3]))
+        elif r < 0.88:
+            ss = [i for i in live if g.info[i]["k"] == "sum"]
+            if ss:
+                g.simplify(rng.choice(ss))
+        else:
+            g.eq(a, rng.choice(live))
+    if near is not None:
+        g.eq(Hh, near); g.eq(near, Hh)
+        x = g.add("add", Hh, Oo); y = g.add("add", Oo, near)
+        g.eq(x, y); g.eq(y, x)
+    # what the tolerance must and must not do, written as comparisons (a significant term next to a huge one)
+    r = rng.random()
+    if r < 0.4:
+        x = g.add("add", Hh, Oo); y = g.add("add", Oo, Hh)
+        if x is not None and y is not None:
+            g.eq(x, y); g.eq(x, Hh); g.eq(Hh, x)
+            z = g.add("sub", x, Hh)
+            if z is not None:
+                g.eq(z, Oo); g.eq(Oo, z)
+    elif r < 0.7 and extra:
+        w = rng.choice(extra)
+        x = g.add("add", w, Oo); y = g.add("sub", x, Oo) if x is not None else None
+        if y is not None:
+            g.eq(x, y); g.eq(y, x)
+            if g.info[w]["k"] == "sum":
+                sw = g.simplify(w)
+                g.eq(y, sw); g.eq(sw, y)
+    elif r < 0.85:
+        x = g.mul(Hh, small); y = g.mul(small, Hh); g.eq(x, y)
+        sO = g.add("add", Hh, Oo)
+        if sO is not None:
+            x = g.mul(sO, small); y = g.mul(small, sO)
+            if x is not None and y is not None:
+                g.eq(x, y); g.eq(x, g.mul(Hh, small))
+    if not g.steps:
+        g.add("add", Hh, Oo)
+    return g.case("wide")
+
+
+# ------------------------------------------------------------------ sibling operands: one component changed, same session
+def _sibling_case(rng, tier):
+    """the same expression evaluated again and again on operands that differ from the first ones in exactly ONE component
+    (a coefficient moved by 2^-22 - inside the same 1e-6 hash bucket -, the same operator with another dict order, an
+    equal but not identical object, one letter changed, the same value as int / float / complex, a written-out identity,
+    a sum with its terms permuted / one term split in two / a zero term added), interleaved with repeats of the first
+    call; all on the same second operand object.  Every result must denote the matrix operation on ITS operands
+    (a result remembered from a similar-looking earlier call is wrong)"""
+    pool = _pool(rng, 3)
+    strs = _strings(rng, pool, 4)
+    nud = Fraction(1, 2 ** rng.choice([21, 22])) * rng.choice([1, -1])
+    g = _Tracked()
+
+    def reg(v, L=-4):
+        n = len(v["terms"]) if v["k"] == "sum" else 1
+        return g.val(v, (-22 if L is True else -4) if isinstance(L, bool) else L, 2 + (1 if v["k"] == "sum" else 0), max(n, 1))
+
+    ka = rng.choice([7, 10, 12, 14])
+    apart = Fraction(1, 2 ** ka) * rng.choice([1, -1])     # well outside the library's tolerances: == must be False
+    kw = rng.choice([28, 30])
+    within = Fraction(1, 2 ** kw) * rng.choice([1, -1])    # well inside 1e-8: == must be True
+
+    re, im = _coeff(rng, allow_zero=False)
+    sums = rng.random() < 0.45
+    if not sums:
+        ops0 = list(strs[0])
+        base = T(ops0, re, im)
+        sib = [(T(list(ops0), re + nud, im), True),                        # coefficient, same hash bucket
+               (T(list(ops0), re + apart, im), -ka) if rng.random() < 0.5 else (T(list(ops0), re, im + apart), -ka),
+               (T(list(reversed(ops0)), re + within, im), -kw),
+               (T(list(reversed(ops0)), re, im), False),                   # dict order
+               (T(list(ops0), re, im), False),                             # equal, not identical
+               (T([[ops0[0][0], LETTERS[(LETTERS.index(ops0[0][1]) + 1) % 3]]] + ops0[1:], re, im), False),  # one letter
+               (T(ops0 + [[max(pool) + 1, "I"]], re, im), False),          # written-out identity
+               (S(T(list(ops0), re, im)), False)]                          # the one-term sum
+        if im == 0:
+            sib.append((T(list(ops0), re, 0, "int" if re.denominator == 1 else "complex"), False))
+        else:
+            sib.append((T(list(ops0), re, -im), False))                    # conjugate coefficient
+    else:
+        cs = [_coeff(rng, allow_zero=False) for _ in range(3)]
+        ts = [T(list(strs[i]), *cs[i]) for i in range(3)]
+        base = S(*ts)
+        half = (cs[1][0] / 2, cs[1][1] / 2)
+        sib = [(S(T(list(strs[0]), cs[0][0] + nud, cs[0][1]), ts[1], ts[2]), True),
+               (S(ts[0], T(list(strs[1]), cs[1][0] + apart, cs[1][1]), ts[2]), -ka),
+               (S(ts[1], ts[0], T(list(strs[2]), cs[2][0], cs[2][1] + within)), -kw),
+               (S(ts[2], ts[0], ts[1]), False),                                                 # term order
+               (S(ts[0], T(list(strs[1]), *half), ts[2], T(list(reversed(strs[1])), *half)), False),  # one term split in two
+               (S(ts[0], ts[1], T(list(strs[3]), 0), ts[2]), False),                            # a zero term added
+               (S(ts[0], ts[1]), False),                                                        # one term fewer
+               (S(ts[0], ts[1], T(list(strs[2]), -cs[2][0], -cs[2][1])), False),                # one sign flipped
+               (S(*[dict(t) for t in ts]), False)]                                              # equal, not identical
+    A = reg(base)
+    rng.shuffle(sib)
+    sib = sib[: rng.randrange(3, 6)]
+    V = [reg(v, nd) for v, nd in sib]
+    B = reg(_term(rng, pool, allow_zero=False, const_p=0.05))
+    nre, nim = rng.choice([(2, 0), (-1, 0), (Fraction(1, 2), 0), (0, 1), (3, 0), (1, 1), (Fraction(-3, 4), Fraction(1, 4))])
+    Nn = reg(N(nre, nim))
+    Nn2 = reg(N(nre + nud, nim), True)        # the sibling of the number
+    D = reg(N(2)); g.info[D]["j"] = 1
+    D2 = reg(N(rng.choice([4, -2, Fraction(1, 2)])))
+    g.info[D2]["j"] = {4: 2, -2: 1, Fraction(1, 2): -1}[unrat(g.vals[D2]["c"][0])]
+    for v in V:                               # the comparison itself, both ways round
+        g.eq(A, v)
+        if rng.random() < 0.6:
+            g.eq(v, A)
+    order = [A]
+    for v in V:
+        order += [v] + ([A] if rng.random() < 0.5 else [])
+    fams = ["add", "radd", "sub", "rsub", "mul", "rmul", "nmul", "nrmul", "nadd", "nsub", "div", "pow", "simplify", "eq"]
+    for fam in rng.sample(fams, 3 if tier == "quick" else 4):
+        res = []
+        p = rng.choice([2, 2, 3, 4])
+        for x in order:
+            if fam in ("add", "sub", "mul"):
+                r = g.add(fam, x, B) if fam != "mul" else g.mul(x, B)
+            elif fam in ("radd", "rsub"):
+                r = g.add(fam[1:], B, x)
+            elif fam == "rmul":
+                r = g.mul(B, x)
+            elif fam == "nmul":
+                r = g.mul(x, Nn)
+            elif fam == "nrmul":
+                r = g.mul(Nn, x)
+            elif fam == "nadd":
+                r = g.add("add", Nn, x)
+            elif fam == "nsub":
+                r = g.add("sub", Nn, x)
+            elif fam == "div":
+                r = g.div(x, D)
+            elif fam == "pow":
+                r = g.pow(x, p)
+            elif fam == "simplify":
+                r = g.simplify(x)
+            else:
+                r = g.eq(x, B)
+                g.eq(B, x)
+                r = None
+            res.append(r)
+        # the sibling of the OTHER operand: the number / the divisor changed, the operator kept
+        if fam == "nmul":
+            res += [g.mul(A, Nn2), g.mul(A, Nn)]
+        elif fam == "nrmul":
+            res += [g.mul(Nn2, A), g.mul(Nn, A)]
+        elif fam == "nadd":
+            res += [g.add("add", Nn2, A), g.add("add", Nn, A)]
+        elif fam == "nsub":
+            res += [g.add("sub", Nn2, A), g.add("sub", A, Nn2), g.add("sub", Nn, A)]
+        elif fam == "div":
+            res += [g.div(A, D2), g.div(A, D)]
+        elif fam == "pow":
+            res += [g.pow(A, p + 1), g.pow(A, p)]
+        res = [r for r in res if r is not None]
+        for r in res[1:1 + (3 if tier == "quick" else 6)]:
+            g.eq(res[0], r)
+            if rng.random() < 0.5:
+                g.eq(r, res[0])
+    if not g.steps:
+        g.add("add", A, B)
+    return g.case("sibling")
+
+
+# ------------------------------------------------------------------ the caller changes what it holds, then asks again
+def _poke_value(rng):
+    k = rng.randrange(33, 64) * rng.choice([1, -1])
+    return _c(Fraction(k, 8), rng.choice([0, 0, Fraction(rng.randrange(17, 32), 8)]))
+
+
+def _poison_case(rng, tier):
+    """call - assign the public `coefficient` of (a term of) the RESULT, or of an OPERAND - call again.  Whatever the
+    objects hold at the time of a call is what the call must compute with: a result handed out twice, a shared identity /
+    zero object, a value remembered per object (hash, key, matrix) without noticing the assignment all show up as a later
+    call that does not denote the matrix operation on its operands.  (Objects the library legitimately shares between an
+    operand and a result are re-read after every assignment, so sharing by itself is never reported.)"""
+    pool = _pool(rng, 3)
+    strs = _strings(rng, pool, 3)
+    ca, cb, cc = [_coeff(rng, allow_zero=False) for _ in range(3)]
+    a = T(list(strs[0]), *ca)
+    b = T(list(strs[1]), *cb)
+    raw = S(T(list(strs[0]), *cc), T(list(strs[2]), *cb), T(list(reversed(strs[0])), *ca))   # holds a duplicate string
+    simp = S(T(list(strs[1]), *cc), T(list(strs[2]), *ca))
+    nre, nim = rng.choice([(2, 0), (-1, 0), (Fraction(1, 2), 0), (0, 1), (4, 0), (0, -2)])
+    A, B, RAW, SIMP, NUM = range(5)
+    g = _Prog([a, b, raw, simp, N(nre, nim)])
+
+    def poke(r, j=None):
+        g.steps.append({"op": "poke", "a": r, "j": rng.randrange(4) if j is None else j, "c": _poke_value(rng)})
+        return len(g.vals) + len(g.steps) - 1
+
+    def call(kind):
+        x = rng.choice([A, RAW, SIMP]); y = rng.choice([B, SIMP, RAW, A])
+        if kind == "bin":
+            op = rng.choice(["add", "sub", "mul"])
+            return lambda: g(op, x, y)
+        if kind == "num":
+            op = rng.choice(["add", "sub", "mul", "div"])
+            if op == "div" or rng.random() < 0.5:
+                return lambda: g(op, x, NUM)
+            return lambda: g(op, NUM, x)
+        if kind == "pow":
+            p = rng.choice([0, 0, 1, 2, 3])
+            return lambda: g("pow", x, p=p)
+        z = rng.choice([RAW, SIMP])
+        return lambda: g("simplify", z)
+
+    r = rng.random()
+    if r < 0.2:
+        # assign an operand INTO equality with another operator and out of it again (== must follow, both ways round,
+        # also through results computed before and after)
+        j = rng.randrange(2)
+        v = _poke_value(rng)
+        simp2 = S(*[dict(t) for t in simp["terms"]])
+        simp2["terms"][j] = dict(simp2["terms"][j], c=v)
+        g.vals.append(simp2)
+        SIMP2 = 5
+        g("eq", SIMP, SIMP2); g("eq", SIMP2, SIMP); s0 = g("add", SIMP, B); t0 = g("add", SIMP2, B); g("eq", s0, t0)
+        g.steps.append({"op": "poke", "a": SIMP, "j": j, "c": v})
+        g("eq", SIMP, SIMP2); g("eq", SIMP2, SIMP); s1 = g("add", SIMP, B); g("eq", s1, t0); g("eq", t0, s1); g("eq", s1, s0)
+        g("sub", SIMP, SIMP2)
+        g.steps.append({"op": "poke", "a": SIMP2, "j": 1 - j, "c": _poke_value(rng)})
+        g("eq", SIMP, SIMP2); g("eq", SIMP2, SIMP); g("sub", SIMP, SIMP2); g("mul", SIMP, SIMP2)
+    elif r < 0.45:
+        # poison the result
+        for _ in range(rng.randrange(1, 3)):
+            f = call(rng.choice(["bin", "bin", "num", "pow", "simplify"]))
+            r1 = f(); poke(r1); r2 = f()
+            if rng.random() < 0.5:
+                poke(r2, 0); f()
+            g("eq", r1, r2)
+    elif r < 0.7:
+        # identities and zeros handed out by the library: a ** 0, s ** 0, s * number (built on identity()), a - a
+        x = rng.choice([A, RAW, SIMP]); y = rng.choice([A, RAW, SIMP])
+        r1 = g("pow", x, p=0); poke(r1, 0); g("pow", y, p=0); g("mul", SIMP, NUM); g("mul", NUM, RAW); g("pow", y, p=2)
+        g("add", x, NUM); g("div", SIMP, NUM); g("eq", A, NUM)
+        z = g("sub", A, A); g("eq", z, SIMP); r2 = g("pow", SIMP, p=1); poke(r2); g("pow", SIMP, p=1); g("pow", SIMP, p=3)
+    else:
+        # change an OPERAND between two identical calls (values remembered per object must not survive the assignment)
+        x = rng.choice([A, RAW, SIMP]); y = rng.choice([B, SIMP])
+        f = call("bin")
+        g("eq", x, y); g("eq", x, x); e0 = g("add", x, y); g("mul", x, y); g("pow", x, p=2); f()
+        if x != A:
+            g("simplify", x)
+        poke(x)
+        g("eq", x, y); g("eq", x, x); e1 = g("add", x, y); g("mul", x, y); g("pow", x, p=2); f(); g("eq", e0, e1); g("eq", e1, e0)
+        if x != A:
+            sx = g("simplify", x); poke(x); g("simplify", x); g("eq", sx, x)
+        g("sub", x, x)
+    return g.case("poison")
+
+
+def _bigpow_case(rng, tier):
+    """all exponents: powers far beyond the handful of small ones (exponent bits 10000, 11111, 100001, ...), of terms
+    with unit-modulus or power-of-two coefficients and of small sums, next to the neighbouring exponents"""
+    pool = _pool(rng, 2)
+    strs = _strings(rng, pool, 3)
+    unit = rng.choice([(1, 0), (-1, 0), (0, 1), (0, -1)])
+    vals = [T(list(strs[0]), *unit), T(list(strs[1]), *rng.choice([(2, 0), (0, Fraction(1, 2)), (-2, 0), (0, -2), (Fraction(-1, 2), 0),
+                                                                    (1, 1), (Fraction(1, 2), Fraction(-1, 2)), (-1, 1)])),
+            T([], *rng.choice([(0, 1), (2, 0), (-1, 0)])),
+            S(T(list(strs[0]), 1), T(list(strs[1]), *rng.choice([(1, 0), (0, 1), (-1, 0)]))),
+            S(T(list(strs[0]), Fraction(1, 2)), T([], Fraction(1, 2))),           # a projector: every power equals itself
+            S(T(list(strs[0]), 1), T(list(strs[0]), -1), T(list(strs[2]), 0, 1))]  # duplicates cancelling inside
+    g = _Prog(vals)
+    for _ in range(rng.randrange(3, 6)):
+        a = rng.randrange(len(vals))
+        p = rng.choice(list(range(7, 22)) + [31, 32, 33, 34, 40, 42, 63, 64])
+        if a == 1:
+            p = min(p, 40)
+        r1 = g("pow", a, p=p); r2 = g("pow", a, p=p + 1); r3 = g("mul", r1, a); g("eq", r2, r3)
+        if rng.random() < 0.5:
+            g("mul", a, r1); g("eq", r1, r2)
+    return g.case("bigpow")
+
+
+# ------------------------------------------------------------------ operator strings that look alike
+def _lookalike_case(rng, tier):
+    """different operator strings that a compact like-term key, a hash or a comparison could take for one another: the same
+    letters on indices shifted by 32 / 64 / 2^31 / 2^32 / 2^40 / 2^63 / 2^64, the letters of two qubits exchanged, all letters
+    rotated, one qubit moved, one factor dropped.  They are different matrices: never merged, never cancelled, never equal"""
+    base_q = sorted(rng.sample(range(12), rng.randrange(1, 3)))
+    ops = [[q, rng.choice(LETTERS)] for q in base_q]
+    if len(ops) == 2 and ops[0][1] == ops[1][1] and rng.random() < 0.7:
+        ops[1][1] = LETTERS[(LETTERS.index(ops[0][1]) + 1) % 3]
+
+    def look(kind):
+        if kind == "shift":
+            k = rng.choice([32, 64, 2 ** 31, 2 ** 32, 2 ** 40, 2 ** 63, 2 ** 64])
+            return [[q + k, p_] for q, p_ in ops]
+        if kind == "shift1":
+            k = rng.choice([32, 64, 2 ** 32, 2 ** 64])
+            return [[ops[0][0] + k, ops[0][1]]] + [list(o) for o in ops[1:]]
+        if kind == "swap" and len(ops) == 2:
+            return [[ops[0][0], ops[1][1]], [ops[1][0], ops[0][1]]]
+        if kind == "rot":
+            return [[q, LETTERS[(LETTERS.index(p_) + 1) % 3]] for q, p_ in ops]
+        if kind == "move":
+            return [[ops[0][0] + 1 if len(ops) == 1 or ops[0][0] + 1 != ops[1][0] else ops[0][0] + 13, ops[0][1]]] + [list(o) for o in ops[1:]]
+        return [list(o) for o in ops[1:]] if len(ops) == 2 else [[ops[0][0], LETTERS[(LETTERS.index(ops[0][1]) + 2) % 3]]]
+
+    kinds = rng.sample(["shift", "shift1", "swap", "rot", "move", "drop"], 3)
+    if not any(k.startswith("shift") for k in kinds):
+        kinds[0] = "shift"
+    ca = _coeff(rng, allow_zero=False)
+    a = T(list(ops), *ca)
+    looks = []
+    for kd in kinds:
+        o = look(kd)
+        rng.shuffle(o)
+        c_ = ca if rng.random() < 0.5 else _coeff(rng, allow_zero=False)   # often the SAME coefficient: a - a' must not vanish
+        looks.append(T(o, *c_))
+    nq = len({q for t in [a] + looks for q, _ in t["ops"]})
+    while nq > 7:
+        looks.pop()
+        nq = len({q for t in [a] + looks for q, _ in t["ops"]})
+    raw = [a] + looks + [dict(a)] + [dict(t) for t in looks[:1]]
+    rng.shuffle(raw)
+    g = _Prog([a] + looks + [S(*raw), S(a), S(*[dict(t) for t in looks])])
+    A = 0
+    L = list(range(1, 1 + len(looks)))
+    RAW, SA, SL = 1 + len(looks), 2 + len(looks), 3 + len(looks)
+    sr = g("simplify", RAW); g("eq", sr, SA); g("add", RAW, RAW)
+    tot = g("add", SA, SL); g("eq", tot, SL); g("eq", SL, tot)
+    for l in L:
+        g("eq", A, l); g("eq", l, A)
+        s_ = g("add", A, l); d_ = g("sub", A, l); g("eq", d_, l); g("eq", s_, A); g("eq", A, d_)
+        if rng.random() < 0.6:
+            g("mul", A, l); g("mul", l, A)
+        if rng.random() < 0.4:
+            g("pow", s_, p=2)
+    g("sub", tot, SL); g("sub", SL, SA); g("mul", SA, SL)
+    return g.case("lookalike")
 
 
 def _malformed(rng):
@@ -486,14 +1114,24 @@ def generate(rng, tier):
         cases.append(_eq_negligible_case(rng))
     for _ in range(200 if big else 40):
         cases.append(_history_case(rng, tier))
+    for _ in range(400 if big else 70):
+        cases.append(_wide_case(rng, tier))
+    for _ in range(250 if big else 50):
+        cases.append(_sibling_case(rng, tier))
+    for _ in range(200 if big else 40):
+        cases.append(_poison_case(rng, tier))
+    for _ in range(60 if big else 20):
+        cases.append(_bigpow_case(rng, tier))
+    for _ in range(120 if big else 24):
+        cases.append(_lookalike_case(rng, tier))
     return cases
 
 
 def _support(v):
     if v["k"] == "term":
-        return {q for q, _ in v["ops"]}
+        return {q for q, p in v["ops"] if p != "I"}
     if v["k"] == "sum":
-        return set().union(*[{q for q, _ in t["ops"]} for t in v["terms"]]) if v["terms"] else set()
+        return set().union(*[_support(t) for t in v["terms"]]) if v["terms"] else set()
     return set()
 
 
@@ -502,7 +1140,7 @@ def nontrivial(case):
     vals = c["vals"]
     for v in vals:
         if v["k"] == "sum":
-            keys = [tuple(sorted(map(tuple, t["ops"]))) for t in v["terms"]]
+            keys = [tuple(sorted((q, p) for q, p in t["ops"] if p != "I")) for t in v["terms"]]
             if len(set(keys)) < len(keys) or any(t["c"] == [0, 0] for t in v["terms"]):
                 return True
     for s in c["steps"]:
@@ -518,6 +1156,8 @@ def _num(c, ty=None):
     re, im = unrat(c[0]), unrat(c[1])
     if ty == "int":
         return int(re)
+    if ty == "complex":
+        return complex(float(re), float(im))
     if im == 0:
         return float(re)
     return complex(float(re), float(im))
@@ -559,12 +1199,25 @@ def _expo(s):
     return complex(s["pf"]) if "j" in s["pf"] else float(s["pf"])
 
 
+def _fp(o):
+    """cheap fingerprint of the value an object holds now (to notice objects that changed under an operation)"""
+    from orquestra.quantum.operators import PauliSum, PauliTerm
+
+    if isinstance(o, PauliTerm):
+        c = o.coefficient
+        return (tuple(sorted(o._ops.items())), complex(c))
+    if isinstance(o, PauliSum):
+        return tuple(_fp(t) for t in o.terms)
+    return None
+
+
 def run_impl(case):
     c = expand(case)
     regs = [_build(v) for v in c["vals"]]
     init = [_canon(r) for r in regs]
-    results = []
-    for s in c["steps"]:
+    fps = [_fp(r) for r in regs]
+    results, changed = [], []
+    for i, s in enumerate(c["steps"]):
         a = regs[s["a"]]
         b = regs[s["b"]] if "b" in s else None
         try:
@@ -584,6 +1237,12 @@ def run_impl(case):
             elif op == "eq":
                 r = (a == b)
                 r = bool(r)
+            elif op == "poke":
+                # the CALLER assigns the public attribute `coefficient` of one term of an object it holds
+                ts = a.terms
+                if len(ts):
+                    ts[int(s["j"]) % len(ts)].coefficient = _num(s["c"], s.get("ty"))
+                r = None
             else:
                 raise AssertionError("unknown step")
         except TypeError:
@@ -592,16 +1251,27 @@ def run_impl(case):
             results.append("err:value"); break
         except ZeroDivisionError:
             results.append("err:zerodiv"); break
+        # which of the objects held so far denote something else now?  (none may, except through a poke)
+        for j, o in enumerate(regs):
+            if fps[j] is not None:
+                f = _fp(o)
+                if f != fps[j]:
+                    fps[j] = f
+                    changed.append([i, j, _canon(o)])
         regs.append(r)
-        results.append(_canon(r))
-    return {"init": init, "results": results}
+        fps.append(_fp(r))
+        results.append("poke" if op == "poke" else _canon(r))
+    return {"init": init, "results": results, "changed": changed}
 
 
 # ---------------------------------------------------------------------------------------------- model requests
 def _strip(v):
     if v["k"] == "sum":
         return {"k": "sum", "terms": [_strip(t) for t in v["terms"]]}
-    return {k: x for k, x in v.items() if k in ("k", "ops", "c")}
+    d = {k: x for k, x in v.items() if k in ("k", "ops", "c")}
+    if "ops" in d:  # the model's terms hold X / Y / Z only (PauliTerm.__init__ drops written-out identities)
+        d["ops"] = [o for o in d["ops"] if o[1] != "I"]
+    return d
 
 
 def _first_term_mul(c):
@@ -631,13 +1301,15 @@ def _denote_target(c, out):
 
 def requests(case, out):
     c = expand(case)
+    if any(s["op"] == "poke" for s in c["steps"]):
+        return []  # assignments by the caller are outside the model (values, no object identity): oracle only
     reqs = [("program", {"vals": [_strip(v) for v in c["vals"]], "steps": c["steps"]})]
     if not isinstance(out, dict) or "results" not in out:
         return reqs
     ftm = _first_term_mul(c)
     if ftm is not None:
         i, s = ftm
-        u = c["vals"][s["b"]]
+        u = _strip(c["vals"][s["b"]])
         order = [q for q, _ in u["ops"]][::-1]  # a different iteration order of the right factor's qubits
         if len(order) > 2:
             order = order[1:] + order[:1]
@@ -761,6 +1433,85 @@ def _is_simplified(v):
     return all(abs(complex(*map(float, _cfr(t["c"])))) > 1e-8 for t in v["terms"])
 
 
+def _keys(v):
+    """operator strings of the terms of a value (a plain number is a multiple of the empty string)"""
+    if v["k"] == "num":
+        return [()]
+    if v["k"] == "term":
+        return [tuple(map(tuple, v["ops"]))]
+    return [tuple(map(tuple, t["ops"])) for t in v["terms"]]
+
+
+def _n1(v):
+    """sum of |coefficient| : bounds every entry of the denoted matrix"""
+    cs = [v["c"]] if v["k"] in ("num", "term") else [t["c"] for t in v["terms"]]
+    return sum(abs(complex(float(re), float(im))) for re, im in map(_cfr, cs))
+
+
+def _prod_key(ka, kb):
+    """the operator string of a product of two Pauli strings (which string, not which phase: per qubit, equal letters
+    cancel and two different letters give the third)"""
+    d = dict(ka)
+    for q, p in kb:
+        if q not in d:
+            d[q] = p
+        elif d[q] == p:
+            del d[q]
+        else:
+            d[q] = ({"X", "Y", "Z"} - {d[q], p}).pop()
+    return tuple(sorted(d.items()))
+
+
+DROP = 1.000001e-8   # a like-term group whose merged coefficient has modulus <= 1e-8 is what "simplified" leaves out
+ROUND = 1e-13        # double rounding of a handful of operations, relative to the size of the operands
+
+
+def _allowance(op, s, va, vb, r, nq):
+    """largest entry-wise distance between the matrix of the result and the matrix operation on the operands that the
+    library's 1e-8 coefficient tolerance (+ double rounding) explains:  DROP per like-term group of the exact result that
+    is absent from the returned sum, nothing for results that are single terms"""
+    n1a = _n1(va)
+    ka = _keys(va)
+    rkeys = set(_keys(r)) if r.get("k") == "sum" else None
+    groups, extra = None, 0.0
+    if op in ("add", "sub"):
+        scale = n1a + _n1(vb)
+        groups = set(ka) | set(_keys(vb))
+        if op == "sub" and vb["k"] == "sum":
+            # a - b is a + (-1.0 * b): the groups of b alone that -1.0 * b already leaves out
+            extra = DROP * sum(1 for x in _coeff_table(vb).values() if abs(x) <= DROP)
+    elif op == "simplify":
+        scale = n1a
+        groups = set(ka)
+    elif op == "mul":
+        scale = n1a * _n1(vb)
+        if rkeys is not None:
+            groups = {_prod_key(x, y) for x in ka for y in _keys(vb)}
+    elif op == "div":
+        re, im = _cfr(vb["c"])
+        scale = n1a / abs(complex(float(re), float(im)))
+        if rkeys is not None:
+            groups = set(ka)
+    else:  # pow
+        p = int(s["p"])
+        scale = max(1.0, n1a) ** max(p, 1)
+        if rkeys is not None and p >= 1:
+            tab = _coeff_table(va)
+            g1 = sum(1 for x in tab.values() if abs(x) <= DROP)  # groups of the operand itself that a**1 leaves out
+            if p == 1:
+                groups = set(ka)
+            elif p == 2:
+                groups = {_prod_key(x, y) for x in ka for y in ka}
+                extra = DROP * 2 * g1 * max(1.0, n1a)
+            else:
+                # square-and-multiply: <= p products, each leaves out at most one DROP per string, and what was left
+                # out is multiplied by at most p - 1 further factors
+                g = min(4 ** nq, max(1, len(ka)) ** p)
+                extra = 2 * DROP * p * g * max(1.0, n1a) ** (p - 1)
+    ndrop = len(groups - rkeys) if (groups is not None and rkeys is not None) else 0
+    return DROP * ndrop + extra + ROUND * scale
+
+
 def oracle(case, out):
     import numpy as np
     c = expand(case)
@@ -768,7 +1519,8 @@ def oracle(case, out):
         return ("raise:" + str(out.get("exc") if isinstance(out, dict) else out), f"implementation raised unexpectedly: {out}")
     regs = list(out["init"])
     qubits = set()
-    for v in regs + [r for r in out["results"] if isinstance(r, dict)]:
+    vals_seen = regs + [r for r in out["results"] if isinstance(r, dict)] + [ch[2] for ch in out.get("changed", [])]
+    for v in vals_seen:
         for t in ([v] if v.get("k") == "term" else v.get("terms", [])):
             qubits |= {int(q) for q, _ in t["ops"]}
     qubits = sorted(qubits)
@@ -776,6 +1528,9 @@ def oracle(case, out):
         return None  # not generated; the dense oracle would need > 128 x 128 matrices
     mats = {}
     lib_simplified = set()  # registers holding a sum RETURNED by + - * / ** simplify(): simplified operators by construction
+    changes = {}
+    for i, j, v in out.get("changed", []):
+        changes.setdefault(i, []).append((j, v))
 
     def M(i):
         if i not in mats:
@@ -786,15 +1541,28 @@ def oracle(case, out):
         return regs[i]["k"] if isinstance(regs[i], dict) else "bool"
 
     eq_seen = {}
+    pending = []
     for i, s in enumerate(c["steps"]):
+        for j, v in pending:  # objects re-arranged (same matrix) by the previous step: read them as they are now
+            regs[j] = v
+            mats.pop(j, None)
+        pending = []
         if i >= len(out["results"]):
             break
         r = out["results"][i]
         op = s["op"]
+        if op == "poke":
+            # the caller changed a coefficient of an object it holds: from here on the objects denote what they hold now
+            regs.append(None)
+            for j, v in changes.get(i, []):
+                regs[j] = v
+                mats.pop(j, None)
+            eq_seen.clear()
+            continue
         ka = kind(s["a"])
         kb = kind(s["b"]) if "b" in s else None
-        if "bool" in (ka, kb):
-            break  # not generated: a comparison result used as an operand
+        if "bool" in (ka, kb) or regs[s["a"]] is None or ("b" in s and regs[s["b"]] is None):
+            break  # not generated: a comparison result / a poke used as an operand
         sig = f"{op}:{ka}" + (f"-{kb}" if kb else "")
         desc = f"step {i} {s} on {common.canon(regs[s['a']])[:160]}" + (f" and {common.canon(regs[s['b']])[:160]}" if "b" in s else "")
         indomain = (op in ("add", "sub", "mul", "eq") and not (ka == "num" and kb == "num")) or op == "simplify" \
@@ -804,6 +1572,18 @@ def oracle(case, out):
             if indomain:
                 return ("raise-in-domain:" + sig, f"{desc}: raised {r} on an in-domain operation")
             break
+        pending = []
+        for j, v in (changes.get(i, []) if indomain else []):
+            # + - * / ** simplify() == are value operations: the objects they were given (and every other object the
+            # caller holds) must denote the same matrix afterwards, otherwise every later expression on them is wrong.
+            # (Re-arranging an object without changing what it denotes - merging its like terms in place - is not reported.)
+            before, after = M(j), _matrix(v, qubits)
+            moved = float(np.max(np.abs(after - before))) if before.size else 0.0
+            if not moved <= DROP * len(set(_keys(regs[j]))) + ROUND * (_n1(regs[j]) + _n1(v)):
+                return ("operand-changed:" + sig,
+                        f"{desc}: the operation changed the matrix denoted by an object the caller holds (by {moved:.3g}): "
+                        f"register {j} was {common.canon(regs[j])[:160]} and is now {common.canon(v)[:160]}")
+            pending.append((j, v))
         regs.append(r)
         if not indomain:
             continue
@@ -815,20 +1595,37 @@ def oracle(case, out):
                 continue
             ta, tb = _coeff_table(va), _coeff_table(vb)
             keys = set(ta) | set(tb)
-            diff = max([abs(ta.get(k2, 0) - tb.get(k2, 0)) for k2 in keys], default=0.0)
-            big = max([abs(x) for x in list(ta.values()) + list(tb.values())], default=0.0)
+            diffs = {k2: abs(ta.get(k2, 0) - tb.get(k2, 0)) for k2 in keys}
+            diff = max(diffs.values(), default=0.0)
+            # the coefficient of one operator string differs by more than the library's tolerances explain
+            # (np.allclose on the two coefficients of that string: 1e-8 + 1e-5 |c|)
+            apart = [k2 for k2 in keys if diffs[k2] > 1e-8 + 1.1e-5 * max(abs(ta.get(k2, 0)), abs(tb.get(k2, 0)))]
             if diff <= 0.9e-8 and r is False:
                 if diff == 0 and "num" in (ka, kb) and "sum" in (ka, kb) and len((va if ka == "sum" else vb)["terms"]) == 0:
                     return ("eq-empty-sum-vs-zero-number",
                             f"{desc}: == is False although both sides denote the zero matrix")
                 if diff > 0:
-                    return ("eq-hash-rounding-boundary",
+                    # the known finding is about coefficients on the two sides of a round(c * 1e6) boundary (sums are
+                    # compared as sets, through __hash__); any other False inside the tolerance is a different failure
+                    def bucket(z):
+                        return (round(z.real * 1e6), round(z.imag * 1e6))
+                    straddle = any(bucket(complex(ta.get(k2, 0))) != bucket(complex(tb.get(k2, 0))) for k2 in keys)
+                    if straddle and "sum" in (ka, kb):
+                        return ("eq-hash-rounding-boundary",
+                                f"{desc}: == is False although every coefficient differs by {diff:.3g} <= 1e-8")
+                    return ("eq-false-within-tolerance:" + sig,
                             f"{desc}: == is False although every coefficient differs by {diff:.3g} <= 1e-8")
                 return ("eq-false-on-equal:" + sig, f"{desc}: == is False although the denoted matrices are equal")
-            if diff > 1e-8 + 1.1e-5 * big and r is True:
-                return ("eq-true-on-different:" + sig, f"{desc}: == is True although coefficients differ by {diff:.3g}")
+            if apart and r is True:
+                biggest = max([abs(x) for x in list(ta.values()) + list(tb.values())], default=0.0)
+                if biggest <= 2.1e-8 and ka == "term" and kb == "term":
+                    return ("eq-near-zero-terms-on-different-strings",
+                            f"{desc}: == is True although the coefficient of {apart[0]} differs by {diffs[apart[0]]:.3g} > 1e-8 "
+                            f"(left coefficient is within 1e-8 of 0, right one is not)")
+                return ("eq-true-on-different:" + sig,
+                        f"{desc}: == is True although the coefficient of {apart[0]} differs by {diffs[apart[0]]:.3g}")
             # a == b iff b == a (matrix equality is symmetric); only outside the tolerance band, where the verdict is fixed
-            if diff <= 0.9e-8 or diff > 1e-8 + 1.1e-5 * big:
+            if diff <= 0.9e-8 or apart:
                 other = eq_seen.get((s["b"], s["a"]))
                 if other is not None and other != r:
                     return ("eq-asymmetric:" + sig, f"{desc}: a == b is {r} but b == a is {other}")
@@ -854,9 +1651,10 @@ def oracle(case, out):
         if r["k"] == "sum":
             lib_simplified.add(len(regs) - 1)
         err = float(np.max(np.abs(got - want))) if got.size else 0.0
-        if err > TOL * max(1.0, float(np.max(np.abs(want))) if want.size else 1.0):
+        allowed = _allowance(op, s, regs[s["a"]], regs[s["b"]] if "b" in s else None, r, len(qubits))
+        if not err <= allowed:
             return (sig, f"{desc}: result {common.canon(r)[:200]} denotes a matrix that differs from the matrix "
-                         f"{op} of the operands by {err:.3g}")
+                         f"{op} of the operands by {err:.3g} (the 1e-8 coefficient tolerance explains at most {allowed:.3g})")
     return None
 
 
@@ -877,5 +1675,13 @@ def distribution(cases, outs):
             for r in out.get("results", []):
                 if isinstance(r, str):
                     errs[r] = errs.get(r, 0) + 1
+    import math
+    mags = [abs(complex(float(unrat(t["c"][0])), float(unrat(t["c"][1]))))
+            for case in cases for v in expand(case)["vals"]
+            for t in ([v] if v["k"] in ("term", "num") else v.get("terms", []))]
+    mags = [m for m in mags if m > 0]
+    objects_changed = sum(len(o.get("changed", [])) for o in outs if isinstance(o, dict))
     return {"step_ops": ops, "errors_hit": errs, "initial_value_kinds": kinds, "max_qubit_index_plus_1": width,
+            "log2_coefficient_magnitude_range": [round(math.log2(min(mags)), 1), round(math.log2(max(mags)), 1)] if mags else None,
+            "objects_changed_under_a_step(pokes)": objects_changed,
             "max_initial_sum_terms": nterms, "inexact_cases": sum(1 for c in cases if c.get("exact") is False)}
